@@ -278,8 +278,6 @@ static int parse_sequel(token_t *tok, int outer)
         }
 
         if ((check_for_grouping--) == 1 && (tok->kind == TOK_STAR ||
-                                            tok->kind == TOK_CONST ||
-                                            tok->kind == TOK_VOLATILE ||
                                             tok->kind == TOK_OPEN_BRACKET)) {
             /* just parentheses for grouping.  Use a OP_NOOP to simplify */
             int x;
